@@ -199,6 +199,7 @@ func init() {
 		Explanation: "Decides, for every path and schedule: rpc.HandleRequest performs exactly one Reply per dispatched request, directly or inside a handler continuation, and Reply is called from nowhere else (LIN/reply); every continuation parameter of the handlers and combinators is consumed exactly once on every full path — called, delegated to another linear function, or parked in a pending slot (LIN/continuations); pending callback slots are cleared only after draining, or when the connection itself goes away (LIN/drain: known finding F9 — Dispose drops ready callbacks on a live connection); an answered throttled request always frees its slot, so the access checks queued behind it — and the client requests waiting for them — are not stranded (PAIR/throttle-slot); continuations run on the connection worker (CTX/conn); every outcome of a get response collects the subscribers waiting on it (DOM/answer-waiting); slot bookkeeping is finished before continuations run (DOM/drain-reentrancy). Not decided: liveness (that a parked continuation is eventually run), the readyCallback.loading countdown arithmetic. Added after seeding round 7: a subscription gives its count on a ready callback back only after descending into its references, so the count cannot reach zero twice (PAIR/ready-count). Added after seeding round 9: marshalers put text into a frame only through json.Marshal: a frame that fails to encode answers nothing (PROV/json-text). Added after seeding round 10: OnReady runs its callback at once only for a ready subscription (DOM/onready-inline).  Added after the mutation sweep of round 11: the bookkeeping of a shared access request — flag raised and caller parked before the request, flag lowered and list emptied before the hand-over — holds on every path of both twins (PAIR/access-inflight). Added after seeding round 12: PAIR/gc-countdown serves this property too.",
 		Assumptions: append([]string{"mq.Client.SendRequest completes exactly once (C18)", "a continuation refused by wsConn.Enqueue because the connection is disposing is an accepted drop"}, baseAssumptions...),
 		Rules: []Rule{
+			{Name: "LOCK/balance", Min: 20, Run: ruleLockBalance, Doc: "no path leaves a mutex held: a later request on the resource or connection would block and never be answered"},
 			{Name: "PAIR/gc-countdown", Min: 1, Run: ruleGCCountdown, Doc: "the collector's count-down works on the counts as they are: a subscription is not made ready (and its pending get answer then discarded as a repeat) while a request still waits on it"},
 			{Name: "PAIR/access-inflight", Min: 1, Run: ruleAccessInflight, Doc: "the waiting list of a shared access request is emptied and its in-flight flag lowered before the answer is handed over: no request is answered twice, none is parked for ever"},
 			{Name: "DOM/onready-inline", Min: 1, Run: ruleOnReadyInline, Doc: "OnReady runs its callback at once only for a ready subscription (everything below it loaded)"},
@@ -285,6 +286,8 @@ func init() {
 		Explanation: "Decides: wsConn.dispose sets the flag and closes the worker channel in one critical section, removes the connection from the cache and from token-reset fan-out, unsubscribes the connection events, disposes every subscription, and leaves the registry (DOM/dispose); Subscription.Dispose releases references and exactly one cache use; Enqueue/Subscribe/Unsubscribe refuse a disposing connection; a late Loaded releases the cache use (PAIR/loaded-handover); late access answers are absorbed (DOM/verdict-store); no call/auth request is issued by a continuation of a disposed connection (CTX/post-dispose); a refused task never strands a throttle slot of other connections (PAIR/throttle-slot); temporary HTTP connections are disposed exactly once on every exit (LIN/temp-conn); sends on the worker channel cannot hit the close (CHAN); teardown takes the connection and cache mutexes in an order that cannot deadlock against the token-reset fan-out (LOCK/order). Not decided: 'no effect on other connections' as a runtime fact beyond the pairing rules of C09. Added after seeding round 7: every service request reads the connection's token and is therefore confined to the connection's worker (CTX/conn), whose queue refuses tasks after the close; a named function that sends a call/auth request hands the dispose test to each closure calling it (CTX/post-dispose). Added after seeding round 8: no function run with the event subscription's mutex held (the tasks of its worker) calls something that takes that mutex again (LOCK/order with held-on-entry states). Added after seeding round 9: a re-access trigger on a disposed subscription starts no access request (DOM/invalidate). Added after seeding round 11: the disposing test that keeps a continuation from sending a call/auth request lies in the continuation itself — a test in front of the creation of the continuation says nothing about the time it runs (CTX/post-dispose). Added after seeding round 12: PAIR/membership serves this property too.",
 		Assumptions: baseAssumptions,
 		Rules: []Rule{
+			{Name: "LOCK/guarded-fields", Min: 40, Run: ruleGuardedFields, Doc: "the connection's queue and the cache's connection registry are touched under their mutexes while a connection goes away"},
+			{Name: "LOCK/balance", Min: 20, Run: ruleLockBalance, Doc: "teardown paths leave every mutex as they found it"},
 			{Name: "PAIR/membership", Min: 1, Run: rulePairMembership, Doc: "a repeated clean-up for a connection that is gone releases nothing twice: other connections' shared resources keep their counts"},
 			{Name: "DOM/invalidate", Min: 1, Run: ruleInvalidate, Doc: "a re-access trigger on a disposed subscription starts no access request"},
 			{Name: "CTX/conn", Min: 25, Run: ruleConfinement, Doc: "every service request on a connection's behalf reads its token and is therefore issued from that connection's worker (whose queue refuses tasks after the close) — never straight from a service-answer callback"},
@@ -367,6 +370,10 @@ func init() {
 		Explanation: "Decides the panic classes that have a crisp rule: decoders return no data with an error, so log-and-continue callers cannot apply a partial message, and return the decoded object whenever they report success, so callers that dereference it cannot hit nil (DOM/all-or-nothing); decoded indexes reach slice operations only inside [0,len] with the exact bound for element access vs slicing, content is dereferenced only for the right kind (DOM/index-kind-guard); optional decoded pointers are dereferenced under their nil test or a predicate implying it, null elements of decoded pointer slices are rejected (DOM/opt-deref); explicit panics and unchecked type assertions are the listed ones (CENSUS/panic); no send on a channel that may have been closed (CHAN: known finding F5 for Cache.inCh); recursive cycles are the listed ones with checked guards (REC/census); the mutex acquisition graph is acyclic (LOCK/order); one Done per throttle slot, so the 'negative running counter' panic is unreachable (PAIR/throttle-slot); a failed or malformed re-fetch closes the reset window, so later valid messages are processed normally (DOM/reset-protocol). Not decided: index safety of lcs, ResourcePattern.Match, byte scans in UnmarshalJSON, encoder buffers; JSON library behaviour; memory exhaustion. Added after seeding round 8: a failed query request releases the event lock, so later messages are still processed (PAIR/query-lock). Added after seeding round 10: a value object naming two of rid, action and data is refused (TABLE/value-object); an answer carrying an error is an error (DOM/error-wins). Added after seeding round 11: every message is decoded as a whole — json.Unmarshal, or a streaming decode followed by a probe for trailing input (TABLE/whole-input); the kind of an answer is decided by the member that is present (TABLE/kind-by-presence).  Added after seeding round 12: an alias of a normalised query resource — base pointer or links entry — is recorded in the resource's alias list on the same path (PAIR/alias-recorded).",
 		Assumptions: baseAssumptions,
 		Rules: []Rule{
+			{Name: "ERR/checked-before-use", Min: 20, Run: ruleErrCheckedBeforeUse, Doc: "what a fallible call hands back is looked into only after its error was found nil: a message that fails to decode is discarded as a whole"},
+			{Name: "DOM/lookup-ok", Min: 3, Run: ruleLookupOK, Doc: "the pointer a comma-ok map lookup returns is dereferenced only where the lookup found it"},
+			{Name: "DOM/const-index", Min: 3, Run: ruleConstIndex, Doc: "an element at a constant position of a payload, subject or path is read only where the length exceeds it"},
+			{Name: "DOM/optional-field", Min: 10, Run: ruleOptionalField, Doc: "pointer fields that are nil for part of their object's life are used only under their non-nil test"},
 			{Name: "LOCK/guarded-fields", Min: 40, Run: ruleGuardedFields, Doc: "the maps, queues and flags each mutex guards are touched with it held: no unsynchronised map access (fatal) and no check of stale state"},
 			{Name: "LOCK/balance", Min: 20, Run: ruleLockBalance, Doc: "every function leaves each mutex as it found it on every path to a return: no path blocks the resource, connection or service for ever, none unlocks an unlocked mutex (fatal)"},
 			{Name: "PAIR/alias-recorded", Min: 1, Run: ruleAliasRecorded, Doc: "an alias installed for a normalised query is recorded in the resource's alias list: no alias outlives its resource (a subscriber attached to a dead resource writes to a nil map on a cache worker)"},
@@ -429,9 +436,18 @@ func init() {
 
 	register(&Property{
 		ID: "C18", Title: "Messaging adapter contract: one completion per request, ordered events",
-		Explanation: "Decides for nats/nats.go: every path of SendRequest consumes the completion exactly once (three immediate-error goroutines or the pending entry) (LIN/sendrequest); every invocation of a request completion is preceded by the removal of its pending entry in the critical section of the lookup, a pre-response removes and completes nothing, event callbacks are invoked synchronously in publish order (PATHS/remove-before-invoke); the subject length is checked against the control-line limit before ChanSubscribe/PublishRequest; NoReconnect and the closed handler are installed, one listener goroutine; no deferred closure captures the listener's loop variable (DOM/loopvar); the only method called on a nats.go subscription is Unsubscribe — no delivery limit that a pre-response could use up (DOM/nats-plumbing). Not decided: timing of timeouts and their restart, disconnect detection by nats.go. Added after seeding round 7: whoever removes a found pending request from the map completes it on every path (PATHS/remove-before-invoke). Added after seeding round 9: the closed handler is registered with the connection unconditionally (DOM/nats-plumbing). Added after seeding round 10: completions are invoked with the adapter's mutex released (PATHS/remove-before-invoke). Added after seeding round 11: the length test that refuses a request with system.subjectTooLong measures the subject and the very inbox string that is sent (DOM/control-line-parts). Added after seeding round 12: the listener takes a message for a pre-response exactly when its first byte is an ASCII letter, decided for all 256 values by constant propagation (TABLE/meta-first-byte).",
+		Explanation: "Decides for nats/nats.go: every path of SendRequest consumes the completion exactly once (three immediate-error goroutines or the pending entry) (LIN/sendrequest); every invocation of a request completion is preceded by the removal of its pending entry in the critical section of the lookup, a pre-response removes and completes nothing, event callbacks are invoked synchronously in publish order (PATHS/remove-before-invoke); the subject length is checked against the control-line limit before ChanSubscribe/PublishRequest; NoReconnect and the closed handler are installed, one listener goroutine; no deferred closure captures the listener's loop variable (DOM/loopvar); the only method called on a nats.go subscription is Unsubscribe — no delivery limit that a pre-response could use up (DOM/nats-plumbing). Not decided: timing of timeouts and their restart, disconnect detection by nats.go. Added after seeding round 7: whoever removes a found pending request from the map completes it on every path (PATHS/remove-before-invoke). Added after seeding round 9: the closed handler is registered with the connection unconditionally (DOM/nats-plumbing). Added after seeding round 10: completions are invoked with the adapter's mutex released (PATHS/remove-before-invoke). Added after seeding round 11: the length test that refuses a request with system.subjectTooLong measures the subject and the very inbox string that is sent (DOM/control-line-parts). Added after seeding round 12: the listener takes a message for a pre-response exactly when its first byte is an ASCII letter, decided for all 256 values by constant propagation (TABLE/meta-first-byte). Added after the mutation sweep (the repository's suite never executes nats/nats.go): per message at most one callback, the no-responders completion exactly for an empty 503 message on a request inbox, only request inboxes are forgotten (CONF/nats-listener); failures are reported with an error that is set and success never comes empty-handed (DOM/result-or-error); a valid timeout pre-response stops the running timeout once and, if that succeeded, arms a timer that runs onTimeout (CONF/nats-premeta); Connect/close/Close/onError set up and tear down the adapter's state completely (CONF/nats-lifecycle); looked-up pending entries, first bytes and optional timers are touched only under their guards (DOM/lookup-ok, DOM/const-index, DOM/optional-field); every function leaves the adapter's mutex as it found it and touches the pending map only under it (LOCK/balance, LOCK/guarded-fields).",
 		Assumptions: append([]string{"nats.go delivers at most what was published; timerqueue fires each entry at most once"}, baseAssumptions...),
 		Rules: []Rule{
+			{Name: "LOCK/guarded-fields", Min: 40, Run: ruleGuardedFields, Doc: "the pending map, the connection and the timeout queue are touched under the adapter's mutex"},
+			{Name: "LOCK/balance", Min: 20, Run: ruleLockBalance, Doc: "every function of the adapter leaves its mutex as it found it"},
+			{Name: "DOM/optional-field", Min: 10, Run: ruleOptionalField, Doc: "the extended-timeout timer of a request is stopped only where it exists"},
+			{Name: "DOM/const-index", Min: 3, Run: ruleConstIndex, Doc: "the first byte of a message is read only where the message is not empty (the no-responders status message is)"},
+			{Name: "DOM/lookup-ok", Min: 3, Run: ruleLookupOK, Doc: "a pending entry looked up for a message or a timeout is dereferenced only where it was found"},
+			{Name: "CONF/nats-lifecycle", Min: 4, Run: ruleNatsLifecycle, Doc: "Connect sets up connection, channel, pending map, timeout queue and listener; the closed handler is kept"},
+			{Name: "CONF/nats-premeta", Min: 1, Run: ruleNatsPreMeta, Doc: "a valid timeout pre-response stops the running timeout once and, if that succeeded, arms a new one that runs onTimeout"},
+			{Name: "DOM/result-or-error", Min: 2, Run: ruleResultOrError, Doc: "SendRequest / Subscribe report failure with an error that is set; success never comes empty-handed"},
+			{Name: "CONF/nats-listener", Min: 1, Run: ruleNatsListener, Doc: "one message: at most one callback; the no-responders completion exactly for an empty 503 on a request inbox; only request inboxes are forgotten"},
 			{Name: "TABLE/meta-first-byte", Min: 1, Run: ruleMetaFirstByte, Doc: "a message on a request inbox is a pre-response exactly when it starts with an ASCII letter (all 256 first bytes decided)"},
 			{Name: "DOM/control-line-parts", Min: 1, Run: ruleControlLineParts, Doc: "the length test in front of a request measures the subject and the reply inbox actually used"},
 			{Name: "CTX/async-completion", Min: 1, Run: ruleAsyncCompletion, Doc: "the completion of a request never runs on the sender's stack (senders hold their own mutex)"},
@@ -450,6 +466,7 @@ func init() {
 		Explanation: "Decides: running++ only below the limit under the throttle mutex, Done on every non-panic path either decrements or hands the slot to the head of the queue, FIFO (DOM/throttle, FIFO/queues) — so running <= limit is inductive and no slot is lost; each governed closure calls Done exactly once on every continuation path and outside any task the connection may refuse (PAIR/throttle-slot); no zero-limit throttle is created (DOM/limit-positive); throttled and unthrottled twins agree (covered by the same path rules on both); a subscription keeps the throttle of the tree it was loaded in until it is disposed or its loading failed (WHO/throttle). Not decided: the number of outstanding requests as a runtime quantity; global progress under arbitrary answer orders beyond 'every completion frees or hands over exactly one slot'. Added after seeding round 7: every combinator between Throttle.Add and the Done of a governed request invokes its continuation on every path — also for a disposing connection (PAIR/throttle-slot, strict hops). Added after seeding round 8: with a positive limit the throttle is created on every path — no estimate of the fan-out lets governed requests out unthrottled (DOM/throttle). Added after seeding round 10: the throttle's capacity decision and its consequence (queue the closure / take the slot) lie in one critical section (DOM/throttle).",
 		Assumptions: append([]string{"C18: each governed request completes"}, baseAssumptions...),
 		Rules: []Rule{
+			{Name: "LOCK/guarded-fields", Min: 40, Run: ruleGuardedFields, Doc: "the throttle's counter and queue are touched under its mutex only"},
 			{Name: "PAIR/access-inflight", Min: 1, Run: ruleAccessInflight, Doc: "one access request per subscription is outstanding at a time (the in-flight flag is raised before the request is sent), so the throttle governs what it is meant to govern"},
 			{Name: "DOM/drain-reentrancy", Min: 2, Run: ruleDrainReentrancy, Doc: "a deferred check released from inside an access callback finds the in-flight flag cleared and is sent"},
 			{Name: "DOM/invalidate", Min: 1, Run: ruleInvalidate, Doc: "a check deferred because the subscription was busy sends its own request: the verdict is cleared before loadAccess can answer from it"},
@@ -466,9 +483,13 @@ func init() {
 
 	register(&Property{
 		ID: "C20", Title: "Fail-stop on messaging loss or Stop, with all clients disconnected",
-		Explanation: "Decides: Stop runs metrics, sockets, HTTP, messaging in this order on the one path that is not a repeated Stop, sets stopping under the mutex first and reports the cause on the stop channel last; the messaging client is closed with a bounded wait before the cache stops; Cache.Stop closes the worker channel, clears pending evictions and resets started; no connection is created or registered once stopped or stopping; loss of the messaging connection stops the service with the cause (DOM/stop); sends on inCh cannot hit the close (CHAN: known finding F5); a connection reports itself done to Stop (wg.Done) only after it released its cache and messaging resources (DOM/dispose). Not decided: that sockets are closed within the timeouts, net/http shutdown, 'never serves from a stale cache' as a runtime fact. Added after seeding round 7: no mutex is re-acquired while held, directly or by a task the holder waits for (LOCK/order with synchronous hand-offs): Stop cannot deadlock on its own lock. Added after seeding round 9: the cause is put on the stop channel inside the critical section that returns the service to not-running, so Start/Stop can be repeated (DOM/stop). Added after seeding round 10: close stops the listener and clears the pending timeouts whenever the adapter was connected, also when the connection is already closed (DOM/nats-plumbing). Added after seeding round 12: the HTTP server object is created by startHTTPServer and cleared by stopHTTPServer only — a server that was shut down is never started again (WHO/stop).",
+		Explanation: "Decides: Stop runs metrics, sockets, HTTP, messaging in this order on the one path that is not a repeated Stop, sets stopping under the mutex first and reports the cause on the stop channel last; the messaging client is closed with a bounded wait before the cache stops; Cache.Stop closes the worker channel, clears pending evictions and resets started; no connection is created or registered once stopped or stopping; loss of the messaging connection stops the service with the cause (DOM/stop); sends on inCh cannot hit the close (CHAN: known finding F5); a connection reports itself done to Stop (wg.Done) only after it released its cache and messaging resources (DOM/dispose). Not decided: that sockets are closed within the timeouts, net/http shutdown, 'never serves from a stale cache' as a runtime fact. Added after seeding round 7: no mutex is re-acquired while held, directly or by a task the holder waits for (LOCK/order with synchronous hand-offs): Stop cannot deadlock on its own lock. Added after seeding round 9: the cause is put on the stop channel inside the critical section that returns the service to not-running, so Start/Stop can be repeated (DOM/stop). Added after seeding round 10: close stops the listener and clears the pending timeouts whenever the adapter was connected, also when the connection is already closed (DOM/nats-plumbing). Added after seeding round 12: the HTTP server object is created by startHTTPServer and cleared by stopHTTPServer only — a server that was shut down is never started again (WHO/stop). Added after the mutation sweep: close tears the adapter down completely whenever it was connected and does nothing otherwise, Close waits for the listener, a slow-consumer error closes the connection, the closed handler is kept (CONF/nats-lifecycle); mutexes are balanced on every path and the service's, cache's and adapter's guarded state is touched under its mutex (LOCK/balance, LOCK/guarded-fields); optional pointers are used under their nil test (DOM/optional-field).",
 		Assumptions: baseAssumptions,
 		Rules: []Rule{
+			{Name: "DOM/optional-field", Min: 10, Run: ruleOptionalField, Doc: "a Stop without (or after) a Start dereferences no nil connection or server"},
+			{Name: "LOCK/guarded-fields", Min: 40, Run: ruleGuardedFields, Doc: "the stopping flag, the stop channel, the connection registry and the HTTP server are touched under the service mutex: a connection is not admitted by a test of stale state while Stop runs"},
+			{Name: "LOCK/balance", Min: 20, Run: ruleLockBalance, Doc: "Stop, Start and the teardown helpers leave every mutex as they found it: no path of the shutdown blocks for ever"},
+			{Name: "CONF/nats-lifecycle", Min: 4, Run: ruleNatsLifecycle, Doc: "close tears everything down whenever the adapter was connected; Close waits for the listener; a slow consumer closes the connection (fail-stop); the closed handler is kept"},
 			{Name: "LOCK/order", Min: 2, Run: ruleLockOrder, Doc: "Stop completes: no lock is re-acquired, directly or by a task it waits for, while it is held (mutex acquisition graph acyclic, synchronous hand-offs included)"},
 			{Name: "DOM/nats-plumbing", Min: 2, Run: ruleNatsPlumbing, Doc: "every loss of the server connection reaches the closed handler (which stops the service)"},
 			{Name: "DOM/dispose", Min: 3, Run: ruleDispose, Doc: "a connection reports itself done to Stop only after it released everything it holds in the cache and the messaging client"},
